@@ -61,6 +61,7 @@ func (f *Fam) Exec(op string) (obs string, fails []common.Failure) {
 			after := f.app.Snap()
 			f.checkSlashing(before, after, w, fail)
 			f.checkBegin(before, after, fail)
+			f.checkWindowHistory(before, after, w, fail)
 		}
 	case "end":
 		obs = f.doEnd()
